@@ -339,6 +339,160 @@ def remove_file_rule(chk, F, ws, rule):
     return len(mut)
 
 
+def file_keyed_unconditional(chk, F, rule):
+    """R08d: a field that is a map keyed by FileId holds per-file state directly: remove(file_id) must reach a mutable borrow
+    of it on *every* path (an early return conditioned on other fields' content leaves the file's entry behind)."""
+    import cfgutil as _c
+    idx = index_types(F)
+    n = 0
+    for X, items in sorted(idx.items()):
+        if X == DBINDEX:
+            continue
+        adt = F.adts.get(X)
+        b = F.bodies.get(items["remove"])
+        if adt is None or b is None:
+            continue
+        types = adt["_types"]
+        succ = b.succ_map()
+        rets = set(b.returns())
+        for f in adt["variants"][0]["fields"]:
+            t = types[f["ty"]]
+            if t[2] != "adt" or not t[3].endswith(("::HashMap", "::BTreeMap")) or not t[4]:
+                continue
+            kt = types[t[4][0]]
+            if not kt[0].endswith("vfs::file_id::FileId"):
+                continue
+            n += 1
+            W = set()
+            for bi, blk in enumerate(b.blocks):
+                if blk[0]:
+                    continue
+                for st in blk[1]:
+                    if st[0] == "a" and st[2][0] == "ref" and st[2][1] == "m" and st[2][2][0] == 1 and \
+                            any(isinstance(e, list) and e[0] == "f" and e[2] == f["name"] for e in st[2][2][1:]):
+                        W.add(bi)
+            key = "%s.%s" % (short(X), f["name"])
+            if not W:
+                continue  # R08a reports a field that is never touched
+            p = _c.paths_avoiding(succ, 0, rets, W)
+            chk.check(p is None, rule, key,
+                      "%s::remove can return without touching the FileId-keyed map `%s` (an early return that depends on other "
+                      "state): the removed file's entry survives" % (short(X), f["name"]), b.loc(), witness={"path_blocks": p},
+                      sample={"rule": rule, "field": key, "verdict": "reached on every path of remove"})
+    return n
+
+
+def infiled_filtered(chk, F, rule):
+    """R08e: a field whose keys or values carry their own file attribution (InFiled<..>) mixes entries of several files under one
+    key, so remove(file_id) must filter it with a `retain` that looks at the file id -- and when that retain sits in the loop
+    over the removed file's ids it must run on every iteration (it may only be bypassed when the lookup of the entry misses)."""
+    import cfgutil as _c
+    import dataflow as _d
+    idx = index_types(F)
+    n = 0
+    for X, items in sorted(idx.items()):
+        adt = F.adts.get(X)
+        b = F.bodies.get(items.get("remove", ""))
+        if adt is None or b is None or X == DBINDEX:
+            continue
+        types = adt["_types"]
+        for f in adt["variants"][0]["fields"]:
+            if "InFiled<" not in types[f["ty"]][0]:
+                continue
+            n += 1
+            key = "%s.%s" % (short(X), f["name"])
+            # mutable borrows of the field and everything derived from them (get_mut results, payloads)
+            derived = set()
+            for blk in b.blocks:
+                for st in blk[1]:
+                    if st[0] == "a" and st[2][0] == "ref" and st[2][1] == "m" and st[2][2][0] == 1 and len(st[1]) == 1 and \
+                            any(isinstance(e, list) and e[0] == "f" and e[2] == f["name"] for e in st[2][2][1:]):
+                        derived.add(st[1][0])
+            changed = True
+            lookups = set()
+            while changed:
+                changed = False
+                for bi, blk in enumerate(b.blocks):
+                    for st in blk[1]:
+                        if st[0] == "a" and len(st[1]) == 1 and st[1][0] not in derived:
+                            rv = st[2]
+                            src = rv[2] if rv[0] == "ref" else (rv[1][1] if rv[0] == "use" and rv[1][0] in ("c", "m") else None)
+                            if src and src[0] in derived:
+                                derived.add(st[1][0])
+                                changed = True
+                    t = blk[2]
+                    if t[0] == "call" and len(t[1]["d"]) == 1 and t[1]["d"][0] not in derived and \
+                            any(a[0] in ("c", "m") and a[1][0] in derived for a in t[1]["a"][:1]):
+                        derived.add(t[1]["d"][0])
+                        if (t[1].get("r") or t[1].get("f") or "").endswith(("::get_mut", "::get")):
+                            lookups.add(bi)
+                        changed = True
+            retains = {bi for bi, c in b.calls() if (c.get("r") or c.get("f") or "").endswith("::retain") and c["a"] and
+                       c["a"][0][0] in ("c", "m") and c["a"][0][1][0] in derived}
+            def captures_file_id(c):
+                # the predicate closure must capture remove's file_id parameter (local 2), directly or by reference
+                if len(c["a"]) < 2 or c["a"][1][0] not in ("c", "m"):
+                    return False
+                for d in _d.def_sites(b).get(c["a"][1][1][0], []):
+                    if d[0] == "stmt" and d[3][0] == "agg" and d[3][1] == "closure":
+                        for op in d[3][4]:
+                            if op[0] in ("c", "m"):
+                                seen, todo = set(), [op[1][0]]
+                                while todo:
+                                    x = todo.pop()
+                                    if x == 2:
+                                        return True
+                                    if x in seen:
+                                        continue
+                                    seen.add(x)
+                                    for d2 in _d.def_sites(b).get(x, []):
+                                        if d2[0] == "stmt" and d2[3][0] in ("ref", "use"):
+                                            src = d2[3][2] if d2[3][0] == "ref" else (d2[3][1][1] if d2[3][1][0] in ("c", "m") else None)
+                                            if src:
+                                                todo.append(src[0])
+                return False
+            retains = {bi for bi in retains if captures_file_id(b.blocks[bi][2][1])}
+            if not retains:
+                chk.violation(rule, key, "%s::remove never filters `%s` by file id (no retain on it): entries contributed by the removed "
+                              "file stay under keys that other files keep alive" % (short(X), f["name"]), b.loc())
+                continue
+            succ = b.succ_map()
+            loops = _c.natural_loops(succ, 0)
+            ok = True
+            wit = None
+            for h, body in loops.items():
+                rs = retains & body
+                if not rs:
+                    continue
+                # None-edges of the lookups of this field inside the loop may bypass the retain
+                bypass = set()
+                for lb in lookups & body:
+                    nxt = b.blocks[lb][2][1]["t"]
+                    for _ in range(3):
+                        t = b.blocks[nxt][2]
+                        if t[0] == "sw":
+                            bypass |= {tb for v, tb in t[2] if v != 1}   # every edge but the Some edge
+                            if not any(v == 0 for v, tb in t[2]):
+                                bypass.add(t[3])
+                            break
+                        if t[0] in ("goto", "fe", "fu"):
+                            nxt = t[1]
+                        else:
+                            break
+                sub = {x: [y for y in succ[x] if y in body] for x in body}
+                for s0 in sub[h]:
+                    p = _c.paths_avoiding(sub, s0, {h}, rs | bypass)
+                    if p is not None and len(p) > 1:
+                        ok = False
+                        wit = [h] + p
+            chk.check(ok, rule, key,
+                      "%s::remove filters `%s` by file id only on some iterations of its loop over the removed file's ids (a "
+                      "`continue`/branch skips the retain): entries of the removed file survive for ids that stay alive" % (short(X), f["name"]),
+                      b.loc(), witness={"cycle_blocks": wit},
+                      sample={"rule": rule, "field": key, "verdict": "filtered by file id on every iteration"})
+    return n
+
+
 def run_c08(chk, F, tier):
     chk.rule("R08a", "for every impl LuaIndex for X: fields written by any &mut-self method of X are written by "
                      "`remove` or exempt (id allocators, configuration mirrors; table in rules/idx.py)")
@@ -363,6 +517,12 @@ def run_c08(chk, F, tier):
     chk.floor("DbIndex LuaIndex fields", n, 14)
     n = ordering(chk, F, "R08c")
     chk.floor("update entry points", n, 3)
+    chk.rule("R08d", "maps keyed by FileId are reached by remove(file_id) on every path")
+    n = file_keyed_unconditional(chk, F, "R08d")
+    chk.floor("FileId-keyed index maps", n, 12)
+    chk.rule("R08e", "InFiled-attributed entries are filtered by file id on every iteration of remove's loop")
+    n = infiled_filtered(chk, F, "R08e")
+    chk.floor("InFiled-attributed index maps", n, 2)
     chk.explanation = ("Write-set analysis over MIR of every method of every LuaIndex implementor: a field that the "
                        "add path can populate must be reachable by remove(file_id); delegation and call order are "
                        "checked on the CFG with must-pass-through. Decides coverage only, not pruning logic.")
@@ -455,6 +615,8 @@ def run_c10(chk, F, tier):
     chk.floor("index fields with writers", nf, 40)
     n = delegation(chk, F, "R08b", "remove")
     chk.floor("DbIndex LuaIndex fields", n, 14)
+    file_keyed_unconditional(chk, F, "R08d")
+    infiled_filtered(chk, F, "R08e")
     n = remove_file_rule(chk, F, ws, "R10")
     chk.floor("Vfs fields with writers", n, 6)
     chk.explanation = ("Removal coverage (write sets), delegation (must-pass-through) and the Vfs removal path.")
